@@ -109,24 +109,8 @@ distance: core::ops::Neg::neg(vu_dist),
         heap_view(final(fringe)) == heap_view(old(fringe)).insert(FringeNode { node_index: u, count: *final(count), distance: fneg(vu_dist) }),
 //@ end
 
-// ---- soundness of the distance-only kernel: every assigned distance is the length (left fold of f64 `+`) of a walk
-//      along stored traversal entries that starts at the source ----
-pub open spec fn step_cost<T: Eq + PartialOrd + Send + Sync, A: Clone>(g: Graph<T, A>, weighted: bool, v: int, k: int) -> f64 {
-    if weighted { g.successors_vec@[v]@[k].weight } else { 1.0f64 }
-}
-// (u, d) extends the walk that reached hist[i]: there is a traversal entry hist[i].0 -> u and d = hist[i].1 + cost
-pub open spec fn extends<T: Eq + PartialOrd + Send + Sync, A: Clone>(g: Graph<T, A>, weighted: bool, hist: Seq<(usize, f64)>, i: int, u: usize, d: f64) -> bool {
-    &&& 0 <= i < hist.len()
-    &&& exists|k: int| 0 <= k < g.successors_vec@[hist[i].0 as int]@.len()
-            && (#[trigger] g.successors_vec@[hist[i].0 as int]@[k]).node_index == u
-            && d == fadd(hist[i].1, step_cost(g, weighted, hist[i].0 as int, k))
-}
-// hist is the sequence of (node, distance) assignments in the order they were made: each one is the source at 0.0 or
-// extends an EARLIER one, so by induction each is the length of a walk from the source
-pub open spec fn chain_ok<T: Eq + PartialOrd + Send + Sync, A: Clone>(g: Graph<T, A>, weighted: bool, source: usize, hist: Seq<(usize, f64)>) -> bool {
-    forall|j: int| 0 <= j < hist.len() ==> (#[trigger] hist[j]).0 < g.n() && (
-        (hist[j].0 == source && hist[j].1 == 0.0f64) || exists|i: int| 0 <= i < j && #[trigger] extends(g, weighted, hist, i, hist[j].0, hist[j].1))
-}
+//@ include chain.rs
+
 pub open spec fn item_ok<T: Eq + PartialOrd + Send + Sync, A: Clone>(g: Graph<T, A>, weighted: bool, source: usize, hist: Seq<(usize, f64)>, it: FringeNode) -> bool {
     &&& it.node_index < g.n()
     &&& (it.node_index == source && fneg(it.distance) == 0.0f64)
@@ -139,43 +123,6 @@ pub open spec fn within_cutoff(cutoff: Option<f64>, d: f64) -> bool {
         None => true,
     }
 }
-pub open spec fn reported(dist: Seq<f64>, u: int) -> bool {
-    0 <= u < dist.len() && !feq(dist[u], f64_max())
-}
-
-pub proof fn lemma_chain_push<T: Eq + PartialOrd + Send + Sync, A: Clone>(g: Graph<T, A>, weighted: bool, source: usize, h0: Seq<(usize, f64)>, v: usize, d: f64)
-    requires
-        chain_ok(g, weighted, source, h0),
-        v < g.n(),
-        (v == source && d == 0.0f64) || exists|i: int| #[trigger] extends(g, weighted, h0, i, v, d),
-    ensures
-        chain_ok(g, weighted, source, h0.push((v, d))),
-{
-    let hist = h0.push((v, d));
-    assert forall|j: int| 0 <= j < hist.len() implies (#[trigger] hist[j]).0 < g.n() && (
-        (hist[j].0 == source && hist[j].1 == 0.0f64) || exists|i: int| 0 <= i < j && #[trigger] extends(g, weighted, hist, i, hist[j].0, hist[j].1)) by {
-        if j < h0.len() {
-            assert(hist[j] == h0[j]);
-            assert(h0[j].0 < g.n());
-            if !(h0[j].0 == source && h0[j].1 == 0.0f64) {
-                let i = choose|i: int| 0 <= i < j && #[trigger] extends(g, weighted, h0, i, h0[j].0, h0[j].1);
-                assert(0 <= i < j && extends(g, weighted, h0, i, h0[j].0, h0[j].1));
-                lemma_extends_mono(g, weighted, h0, (v, d), i, h0[j].0, h0[j].1);
-                assert(extends(g, weighted, hist, i, hist[j].0, hist[j].1));
-            }
-        } else {
-            assert(hist[j] == (v, d));
-            if !(v == source && d == 0.0f64) {
-                let i = choose|i: int| #[trigger] extends(g, weighted, h0, i, v, d);
-                assert(extends(g, weighted, h0, i, v, d));
-                lemma_extends_mono(g, weighted, h0, (v, d), i, v, d);
-                assert(0 <= i < j);
-                assert(extends(g, weighted, hist, i, hist[j].0, hist[j].1));
-            }
-        }
-    }
-}
-
 pub proof fn lemma_item_mono<T: Eq + PartialOrd + Send + Sync, A: Clone>(g: Graph<T, A>, weighted: bool, source: usize, h0: Seq<(usize, f64)>, x: (usize, f64), it: FringeNode)
     requires item_ok(g, weighted, source, h0, it),
     ensures item_ok(g, weighted, source, h0.push(x), it),
@@ -186,34 +133,6 @@ pub proof fn lemma_item_mono<T: Eq + PartialOrd + Send + Sync, A: Clone>(g: Grap
     }
 }
 
-pub proof fn lemma_reported_push(dist0: Seq<f64>, dist1: Seq<f64>, h0: Seq<(usize, f64)>, v: usize, d: f64)
-    requires
-        v < dist0.len(),
-        dist1 == dist0.update(v as int, d),
-        forall|u: int| reported(dist0, u) ==> h0.contains((u as usize, #[trigger] dist0[u])),
-    ensures
-        forall|u: int| reported(dist1, u) ==> h0.push((v, d)).contains((u as usize, #[trigger] dist1[u])),
-{
-    let hist = h0.push((v, d));
-    assert forall|u: int| reported(dist1, u) implies hist.contains((u as usize, #[trigger] dist1[u])) by {
-        if u == v as int {
-            assert(hist[h0.len() as int] == (v, d));
-        } else {
-            assert(dist1[u] == dist0[u]);
-            assert(reported(dist0, u));
-            assert(h0.contains((u as usize, dist0[u])));
-            let j = choose|j: int| 0 <= j < h0.len() && h0[j] == (u as usize, dist0[u]);
-            assert(hist[j] == h0[j]);
-        }
-    }
-}
-
-pub proof fn lemma_extends_mono<T: Eq + PartialOrd + Send + Sync, A: Clone>(g: Graph<T, A>, weighted: bool, hist: Seq<(usize, f64)>, x: (usize, f64), i: int, u: usize, d: f64)
-    requires extends(g, weighted, hist, i, u, d),
-    ensures extends(g, weighted, hist.push(x), i, u, d),
-{
-    assert(hist.push(x)[i] == hist[i]);
-}
 
 //@ extract fn src/algorithms/shortest_path/dijkstra.rs dijkstra_basic props=C03,C04,C20
 //@ head
